@@ -536,6 +536,21 @@ def predicates(ctx: Ctx) -> None:
                 key = r[0] + (":same-search-object" if chain is not None else "")
                 ctx.fail(key, r[1] + (" (search object reused across points, as within one run)" if chain is not None else ""),
                          {"kind": "eigen", "surface": spec, "x": x, "np_seed": seed, "chained": chain is not None})
+    # boxes that freeze a coordinate (lower == upper, which the bounded minimiser accepts): the frozen coordinate sits on
+    # both of its bounds, so the direction handed on has no component along it at all
+    for _ in range(ctx.scale(10, 60) * deep):
+        d = rng.choice([3, 4, 5])
+        bounds = [[-1.0, 1.0] for _k in range(d)]
+        kf, vf = rng.randrange(d), rng.choice([-0.5, 0.0, 0.25, 1.0])
+        bounds[kf] = [vf, vf]
+        spec = {"kind": "sep", "c": [rng.choice([0.5, -0.25, 1.0, -1.0]) for _k in range(d - 2)], "bounds": bounds}
+        x = [vf if i == kf else rng.choice([-1.0, 1.0, rng.uniform(-0.9, 0.9)]) for i in range(d)]
+        seed = rng.randrange(2 ** 31)
+        r, kind = pred_eigen(spec, x, seed)
+        ctx.stats.case({"stream": "predicate-eigen-frozen", "d": d, "frozen": kf, "x": V(x)}, True)
+        kinds["frozen:" + (kind or "FAIL")] = kinds.get("frozen:" + (kind or "FAIL"), 0) + 1
+        if r:
+            ctx.fail(r[0] + ":frozen-coordinate", r[1] + f" (box {bounds})", {"kind": "eigen", "surface": spec, "x": x, "np_seed": seed})
     # constant-Hessian surfaces, warm start: the direction found at x is already converged at -x (zero
     # L-BFGS iterations) although the gradient there is reversed — it must still be re-oriented uphill
     for spec in ({"kind": "sep", "c": [0.5]}, {"kind": "sep", "c": [0.5, -0.25]}, {"kind": "sep", "c": [1.0, 1.0, -1.0]}):
